@@ -1,7 +1,7 @@
-\* C20 ext (specs/TagRules.tla), thorough: design check and export; the three legacy filters with the larger alphabets (3-5 templates): rule lists <= 3 x single tags of 49, <= 2 x <= 2 of 6, <= 1 x <= 3 of 6, <= 3 x <= 2 of 4.  Deadlock checking stays on: every behaviour must reach phase "done".
+\* C20 ext (specs/TagRules.tla), thorough: design check and export; the three legacy filters with the larger alphabets (3-5 templates): rule lists <= 3 x single tags of 15, <= 2 x <= 2 of 6, <= 1 x <= 3 of 6.  Deadlock checking stays on: every behaviour must reach phase "done".
 SPECIFICATION Spec
 CONSTANTS
   Fams <- Legacy
   Alpha <- AlphaLegacyBig
-  Shapes <- ShapeCrossT
+  Shapes <- ShapeCrossM
 INVARIANTS TypeOK RefinesRules RefinesIter RefinesRest Export
